@@ -41,6 +41,10 @@ def plan(tier, seed):
         jobs.append({"name": "rand%02d" % i, "spec": {"kind": "rand", "n": n // NSH, "big": i < 2 and tier != "quick"}})
     for i in range(2 if tier == "quick" else 8):
         jobs.append({"name": "threads%02d" % i, "spec": {"kind": "threads", "rounds": 4 if tier == "quick" else 60}})
+    # the same random workload in a process whose default text encoding is ASCII (C locale, UTF-8 mode off): path I/O then
+    # either refuses a non-ASCII comment or reads back what was written
+    for i in range(1 if tier == "quick" else 4):
+        jobs.append({"name": "clocale%02d" % i, "env": {"LC_ALL": "C", "LANG": "C", "PYTHONUTF8": "0", "PYTHONCOERCECLOCALE": "0"}, "spec": {"kind": "rand", "n": (n // NSH), "big": False, "ascii_locale": True}})
     return jobs
 
 
@@ -48,7 +52,7 @@ def mandatory_bins(tier):
     b = ["len_mod16_%d" % i for i in range(16)] + ["len_mod40_%d" % i for i in range(40)]
     b += ["trailing_zeros_%d" % z for z in (0, 1, 2, 15, 16, 17)]
     b += ["zero_components", "zero_comments", "io_stream", "io_path", "mac_on", "mac_off", "default_key", "key_ends_00", "declared_lt_len", "declared_1",
-          "desc_210_bytes", "desc_211_bytes_refused", "tag_order_not_sorted", "crlf_in_path_file", "all_zero_payload", "cross_mode_path_written_stream_read", "rewrite_after_in_place_mutation", "enc_tag_other_value_on_plain_component", "stream_positioned_after_other_content", "comment_with_unicode_line_boundary_character", "same_component_object_listed_twice", "write_and_read_by_concurrent_threads"]
+          "desc_210_bytes", "desc_211_bytes_refused", "tag_order_not_sorted", "crlf_in_path_file", "all_zero_payload", "cross_mode_path_written_stream_read", "rewrite_after_in_place_mutation", "enc_tag_other_value_on_plain_component", "stream_positioned_after_other_content", "comment_with_unicode_line_boundary_character", "same_component_object_listed_twice", "write_and_read_by_concurrent_threads", "path_target_holds_an_older_longer_file", "default_text_encoding_is_ascii"]
     return b
 
 
@@ -109,6 +113,10 @@ def check_case(ns, ctx, case, key, scratch, modes=("stream", "path"), macs=(True
                 path = None
             else:
                 fd, path = tempfile.mkstemp(dir=scratch, suffix=".bf3")
+                if len(case.comps) % 2:
+                    # the path already holds an older, longer file
+                    os.write(fd, b"Old: file\r\n\r\n" + (b"42463300" + b"AB" * 36 + b"\r\n") * 60)
+                    ctx.bin("path_target_holds_an_older_longer_file")
                 os.close(fd)
                 with warnings.catch_warnings(record=True) as wl:
                     warnings.simplefilter("always")
@@ -128,6 +136,8 @@ def check_case(ns, ctx, case, key, scratch, modes=("stream", "path"), macs=(True
                 ctx.note("writer_refused_oversize_description_" + type(e).__name__)
             elif special:
                 ctx.note("writer_refused_comment_with_line_boundary_character")
+            elif isinstance(e, UnicodeEncodeError) and mode == "path":
+                ctx.note("writer_refused_comment_not_encodable_in_the_default_encoding")
             else:
                 ctx.violation("writer_raises_on_object_in_domain", {"exc": fmt_exc(e), "mode": mode}, rp)
             if path:
@@ -320,6 +330,12 @@ def run_shard(spec, ctx):
                 for ln in (1 << 20, (1 << 20) + 1):
                     check_case(ns, ctx, G.Case([], [MComp([], rng.randbytes(ln), None, False)]), rng.randbytes(16), scratch, modes=("path",), macs=(True,))
             return
+        if spec.get("ascii_locale"):
+            import locale
+
+            if locale.getpreferredencoding(False).lower().replace("-", "") in ("utf8",):
+                raise RuntimeError("harness: shard meant to run with an ASCII default encoding has %s" % locale.getpreferredencoding(False))
+            ctx.bin("default_text_encoding_is_ascii")
         for i in range(spec["n"]):
             case = G.gen_case(rng, big=spec.get("big", False))
             key = G.gen_key(rng)
